@@ -44,7 +44,14 @@ Definition classes : list (string * fclass) := [
   (* CheckSource: setDefinedMacros(false); BuiltinImportsProcessed is set once and stays;
      hasDefer/generator/readonly/... are toggled around nested checks; the others are options *)
   ("flags", ResetBySource);
-  (* CheckProgram: c.phase = methodSignatureCheckPhase ... c.phase = expressionPhase *)
+  (* CheckProgram: c.phase = methodSignatureCheckPhase ... c.phase = expressionPhase.
+     KNOWN FINDING: this reason is incomplete.  Hoisting and checkTypeDefinitions run BEFORE the first
+     of these assignments and read the phase (checkTypeIfNecessary: `if c.phase != initPhase`), so
+     from the second input on they see expressionPhase: circular named types are no longer detected
+     (found by c27.sessions, key reject:missed:late:cyclic-typedef; fixes/C27-reset-phase.patch makes
+     CheckSource assign c.phase = initPhase).  The audit only checks "unconditionally assigned by
+     CheckProgram", not "before every read"; once the fix is applied this entry should become
+     ResetBySource *)
   ("phase", ResetByProgram);
   (* every `c.mode = x` is paired with `c.mode = prevMode` *)
   ("mode", TransientBalanced);
